@@ -104,12 +104,15 @@ def _library(case):
                                    M.Field("author", NameParts(first=[g(1)], von=[], last=[g(2), g(3)], jr=[g(4)]), 3),
                                    M.Field("editor", [NameParts(first=[g(0)], last=[g(1)])], 4),
                                    M.Field("note", [g(2), g(3)], 5)], 0, "@article{raw1}")
+    rot = case.get("rot", 0) % 5
+    e1.fields = e1.fields[rot:] + e1.fields[:rot]      # which field comes first matters for the error bookkeeping
     e1.parser_metadata["x"] = "keep"
     e2 = M.Entry("book", "k2", [M.Field(g(5) if case.get("keytext") else "f", g(5), 7)], 6, "raw2")
     e3 = M.Entry("misc", "k1", [M.Field("a", g(6), 9)], 8, "raw3")        # duplicate key -> wrapped by the library
+    e4 = M.Entry("misc", "k4", [M.Field("author", NameParts(first=[g(3)], von=[g(1)], last=[g(2)], jr=[]), 17)], 16, "raw4")
     s1 = M.String("s", g(7), 10, "@string{raw}")
     s2 = M.String("n", 5, 11, "@string{n}")
-    blocks = [e1, M.Preamble(g(0), 12, "p"), s1, M.ExplicitComment(g(1), 13, "c"), e2, M.ImplicitComment(g(2), 14, g(2)), e3, s2,
+    blocks = [e1, e4, M.Preamble(g(0), 12, "p"), s1, M.ExplicitComment(g(1), 13, "c"), e2, M.ImplicitComment(g(2), 14, g(2)), e3, s2,
               M.ParsingFailedBlock(error=BlockAbortedException(abort_reason="Unexpectedly reached end of file."), start_line=15, raw=g(3))]
     return Library(blocks)
 
@@ -119,6 +122,8 @@ def corpus():
         {"texts": ["plain", "é & co", "$x^2$ and 50%", "see https://a.b/c", "a_b #1", "{braces}", "~tilde~", "back\\slash"], "opt": 0, "inplace": True, "then": 4},
         {"texts": ["BOOM here", "fine", "SILENT"], "opt": 7, "inplace": False, "then": None},
         {"texts": ["BOOM"], "opt": 8, "inplace": True, "then": None},
+        {"texts": ["fine", "BOOM", "fine", "fine"], "opt": 7, "inplace": True, "then": None, "rot": 2},   # first failure inside a NameParts
+        {"texts": ["fine", "fine", "fine", "BOOM"], "opt": 8, "inplace": False, "then": None, "rot": 2},
         {"texts": ["see https://a.b/c&d now"], "opt": 0, "inplace": True, "then": 4},           # K4
         {"texts": ["a"], "opt": 0, "inplace": True, "then": 4, "keytext": True},
         {"texts": ["{" * 400 + "x" + "}" * 400, "fine"], "opt": 4, "inplace": True, "then": None},   # converter hits the recursion limit
@@ -138,7 +143,8 @@ def gen(tier, rng):
         then = None
         if OPTS[opt][0] == "enc" and not raising and rng.random() < 0.6:
             then = rng.choice([4, 4, 5, 6])
-        yield {"texts": texts, "opt": opt, "inplace": rng.random() < 0.5, "then": then, "keytext": rng.random() < 0.2}
+        yield {"texts": texts, "opt": opt, "inplace": rng.random() < 0.5, "then": then, "keytext": rng.random() < 0.2,
+               "rot": rng.randrange(5)}
 
 
 def _strings_of(lib):
@@ -259,6 +265,11 @@ def extra_obligations(tier):
     import random
     rng = random.Random(20260930)
     n = 600 if tier == "quick" else 6000
+    # instances must be independent: build (and use) every other option set first, in the same process,
+    # so that state leaking between instances (a shared cache, a mutated module-level rule list) shows up here
+    for kind, kw in OPTS:
+        if "encoder" not in kw and "decoder" not in kw and kw:
+            _mw(kind, kw, True)._transform_python_value_string("warm $a_b$ {up} https://a.b/c")
     dec = _mw("dec", {}, True)
     res = []
     for kw in ({}, {"enclose_urls": False}, {"keep_math": False}, {"keep_math": False, "enclose_urls": False}):
